@@ -16,7 +16,7 @@ RULE = ("x+y, x-y, x*y with default (optimal) sizing vs exact integer/Fraction a
         "(c) random +,-,* expression trees of depth <=4 over leaves of <=8 bits evaluated in Fractions. "
         "Non-trivial = an operand at an extreme code, or mixed signedness, or unequal n_frac; distinct = distinct (formats, codes, op, route, method).")
 ASSUMPTIONS = ['operands are created from raw codes (no scale/bias, no flags set)', 'result word <= 53 bits (wider results are C19)']
-EXHAUSTIVE = True
+EXHAUSTIVE = False    # the whole quantifier is not enumerated; complete sub-domains are listed in EXHAUSTIVE_SUBDOMAINS
 EXHAUSTIVE_SUBDOMAINS = {'quick': ['all format pairs n_word<=4 (n_frac -1..n_word+1) x all code pairs x {+,-,*} via operators (raw); n_word<=3 additionally via fxpmath.* / numpy ufuncs and repr method'],
                          'thorough': ['all format pairs n_word<=4 x all code pairs x 3 ops x 3 routes x 2 methods; n_word<=5 via operators']}
 REQUIRED_CLASSES = {'extreme': 1000, 'mixed-sign': 1000, 'unequal-frac': 1000, 'tree': 100}
